@@ -178,7 +178,14 @@ def rustFieldTy (M : Model) (p : Prp) : XTy :=
 
 /-! ### checkers -/
 
-def showX (t : XTy) : String := toString (repr t)
+def showXF : Nat → XTy → String
+  | 0, _ => "…"
+  | k + 1, .n a [] => a.toString
+  | k + 1, .n a as => a.toString ++ "<" ++ ", ".intercalate (as.map (showXF k)) ++ ">"
+  | k + 1, .tup as => "(" ++ ", ".intercalate (as.map (showXF k)) ++ ")"
+
+/-- readable rendering for replay files only (never used in a checker's verdict) -/
+def showX (t : XTy) : String := showXF 32 t
 
 def rustStructMismatches (M : Model) (R : RPkg) (s : Struct) : List Mismatch :=
   match R.structs.find? (·.name == s.name) with
